@@ -206,6 +206,26 @@ func c03Check(ctx *Ctx, db *database.Database, hist []string, q string, o databa
 
 // c03Twin: with NLP on, the answer after a history must equal the answer of
 // a freshly loaded database holding the same entries (stale re-ranker).
+// c03Adopted: after a replacement the commands being searched are the ones that were handed over.
+func c03Adopted(ctx *Ctx, db *database.Database, want []vlib.Cmd, hist []string, where string) {
+	ctx.R.Path("replacements-checked-for-adoption", 1)
+	ok := len(db.Commands) == len(want)
+	at := -1
+	for i := 0; ok && i < len(want); i++ {
+		a, b := db.Commands[i], want[i]
+		if a.Command != b.Command || a.Description != b.Description || a.Niche != b.Niche || a.Pipeline != b.Pipeline ||
+			strings.Join(a.Keywords, "\x00") != strings.Join(b.Keywords, "\x00") || strings.Join(a.Tags, "\x00") != strings.Join(b.Tags, "\x00") ||
+			strings.Join(a.Platform, "\x00") != strings.Join(b.Platform, "\x00") {
+			ok, at = false, i
+		}
+	}
+	if !ok {
+		ctx.R.Violate(vlib.Violation{Property: "C03", Clause: "replacement-not-adopted", Path: where,
+			Detail:  fmt.Sprintf("after %s with a list of %d entries the database holds %d entries and differs from that list (first difference at entry %d): the searches go on over the previous commands", where, len(want), len(db.Commands), at),
+			Witness: map[string]interface{}{"history": append([]string(nil), hist...)}})
+	}
+}
+
 func c03Twin(ctx *Ctx, db *database.Database, hist []string, q string, where string) {
 	N := len(db.Commands)
 	if N == 0 {
@@ -271,7 +291,7 @@ func engineIndexScan(ctx *Ctx) {
 		if g := ctx.G(h); g%24 == 11 && len(base) > 1 {
 			// an entry that repeats one word tens of thousands of times in one field (a pasted log, a generated list): term
 			// frequencies around and beyond 2^16
-			K := []int{65535, 65536, 65537, 70000, 131075, 40000}[(g/24)%6]
+			K := []int{65535, 65536, 65537, 70000, 66001, 40000}[(g/24)%6]
 			w := vlib.Word(r, vlib.DBWords(base))
 			i := r.Intn(len(base))
 			switch r.Intn(3) {
@@ -287,6 +307,21 @@ func engineIndexScan(ctx *Ctx) {
 				base[i].Keywords = kw
 			}
 			ctx.R.Path("entries-with-a-word-repeated-around-65536-times", 1)
+		}
+		var extraWords []string
+		if g := ctx.G(h); g%5 == 2 && len(base) > 1 {
+			// words that a 32-bit hash cannot tell apart (FNV-1a, FNV-1, CRC-32, Adler-32, djb2): one goes into an entry, the
+			// other is asked for (and sometimes sits in another entry) - a term dictionary keyed by such a hash merges them
+			pairs := vlib.CollidingWords()
+			for k := 0; k < 3 && len(pairs) > 0; k++ {
+				pr := pairs[(g/5+k*7)%len(pairs)]
+				base[r.Intn(len(base))].Description += " " + pr.A
+				if r.Intn(3) == 0 {
+					base[r.Intn(len(base))].Keywords = append(base[r.Intn(len(base))].Keywords, pr.B)
+				}
+				extraWords = append(extraWords, pr.B, pr.A)
+			}
+			ctx.R.Path("histories-with-hash-colliding-words", 1)
 		}
 		literal := h%4 == 3 // a database built at run time from plain entries (no loader involved), changed by editing what it holds
 		hist := []string{}
@@ -352,8 +387,17 @@ func engineIndexScan(ctx *Ctx) {
 			}
 			words := vlib.DBWords(db.Commands)
 			nq := 2 + r.Intn(3)
+			if len(extraWords) > 0 {
+				nq += 3
+			}
 			for k := 0; k < nq; k++ {
 				q := c03Query(r, words)
+				if len(extraWords) > 0 && k >= nq-3 {
+					q = extraWords[r.Intn(len(extraWords))]
+					if r.Intn(2) == 0 && len(words) > 0 {
+						q += " " + vlib.Word(r, words)
+					}
+				}
 				o := database.SearchOptions{AllPlatforms: r.Intn(4) > 0}
 				if r.Intn(3) == 0 {
 					o.ContextBoosts = map[string]float64{}
@@ -438,7 +482,50 @@ func engineIndexScan(ctx *Ctx) {
 				continue
 			}
 			ctx.R.Guard("C03", "history-step", hist, func() {
-				switch r.Intn(7) {
+				switch r.Intn(8) {
+				case 7: // the same entries reloaded twice, the second time with words re-filed between their fields
+					if len(db.Commands) == 0 {
+						return
+					}
+					l1 := vlib.StripCaches(db.Commands)
+					mdb.LoadDatabaseWithMonitoring(vlib.MustLoad(l1).Commands)
+					l2 := vlib.StripCaches(db.Commands)
+					for k := 0; k < 1+r.Intn(3); k++ {
+						c := &l2[r.Intn(len(l2))]
+						switch r.Intn(5) {
+						case 0: // a keyword becomes a tag
+							if len(c.Keywords) > 0 { // (the last keyword becomes the first tag: read one after the other, the words stay as they were)
+								c.Tags = append([]string{c.Keywords[len(c.Keywords)-1]}, c.Tags...)
+								c.Keywords = append([]string(nil), c.Keywords[:len(c.Keywords)-1]...)
+							}
+						case 1: // two keywords joined into one word
+							if len(c.Keywords) > 1 {
+								c.Keywords = append([]string{c.Keywords[0] + c.Keywords[1]}, c.Keywords[2:]...)
+							}
+						case 2: // the last word of the command moves to the front of the description
+							f := strings.Fields(c.Command)
+							if len(f) > 1 && strings.HasSuffix(c.Command, f[len(f)-1]) {
+								c.Command = strings.TrimSuffix(c.Command, f[len(f)-1])
+								c.Description = f[len(f)-1] + c.Description
+							}
+						case 3: // a tag becomes the category
+							if len(c.Tags) > 0 && c.Niche == "" {
+								c.Niche = c.Tags[len(c.Tags)-1]
+								c.Tags = append([]string(nil), c.Tags[:len(c.Tags)-1]...)
+							}
+						default: // the description's first word moves to the end of the command
+							f := strings.Fields(c.Description)
+							if len(f) > 1 {
+								c.Command += f[0]
+								c.Description = strings.TrimPrefix(c.Description, f[0])
+							}
+						}
+					}
+					mdb.LoadDatabaseWithMonitoring(vlib.MustLoad(l2).Commands)
+					c03Adopted(ctx, db, l2, hist, "LoadDatabaseWithMonitoring")
+					hist = append(hist, fmt.Sprintf("LoadDatabaseWithMonitoring(current %d)", len(l1)), "LoadDatabaseWithMonitoring(same entries, words re-filed between fields)")
+					where = "LoadDatabaseWithMonitoring"
+					ctx.R.Path("steps-refiling-words-between-fields", 1)
 				case 4: // cache switched off / on around whatever comes next
 					en := r.Intn(2) == 0
 					cdb.EnableCache(en)
@@ -471,6 +558,7 @@ func engineIndexScan(ctx *Ctx) {
 					sp2.N = n
 					repl := vlib.MustLoad(vlib.GenCommands(r, sp2)).Commands
 					cdb.UpdateDatabase(repl)
+					c03Adopted(ctx, db, repl, hist, "UpdateDatabase")
 					hist = append(hist, fmt.Sprintf("UpdateDatabase(%d)", len(repl)))
 					where = "UpdateDatabase"
 				case 1:
@@ -478,6 +566,7 @@ func engineIndexScan(ctx *Ctx) {
 					sp2.N = len(db.Commands)
 					repl := vlib.MustLoad(vlib.GenCommands(r, sp2)).Commands
 					mdb.LoadDatabaseWithMonitoring(repl)
+					c03Adopted(ctx, db, repl, hist, "LoadDatabaseWithMonitoring")
 					hist = append(hist, fmt.Sprintf("LoadDatabaseWithMonitoring(%d)", len(repl)))
 					where = "LoadDatabaseWithMonitoring"
 				default: // direct growth of Commands (forces re-allocation)
